@@ -571,6 +571,13 @@ def judge(model, info, pred, files, run_c, run_py):
     if ext != any(r["type"] == "external" for r in info["variables"] + info["states"]):
         P.append(("oracle", "hasExternalVariables()=%s but the variable types say otherwise" % ext))
 
+    # the hypothesis of C17_nla_systems_complete: nlaSiblings() are NLA equations of the same system
+    for e in info["equations"]:
+        if e["type"] == "nla":
+            for sp in e["sibs"]:
+                if sp >= len(info["equations"]) or info["equations"][sp]["type"] != "nla" or info["equations"][sp]["nla"] != e["nla"]:
+                    P.append(("oracle", "an NLA equation of system %d lists equation %d as sibling, which is not an NLA equation of that system" % (e["nla"], sp)))
+
     # ---- need flags
     need_bits = "".join("1" if f in need else "0" for f in FLAG_NAMES)
     if info["need"] != need_bits:
